@@ -382,11 +382,12 @@ Definition rd_area (cl : acls) (s : ast) : ast * V :=
                                k_bbox_ := k_bbox_ k; k_bbox := k_bbox k; k_edges := k_edges k; k_area := Some v |}, v)
     end
   else (s, F_area (a_params s)).
-(* to_mask: zip(self._bbox, self._centered_edges) *)
+(* to_mask: zip(self._bbox, self._centered_edges) ... if self.isscalar: masks[0] *)
 Definition rd_mask (cl : acls) (m : Z) (s : ast) : ast * V :=
   let '(s1, b) := rd_bbox_ cl s in
   let '(s2, e) := rd_edges cl s1 in
-  (s2, F_mask m (a_params s2) b e).
+  let '(s3, sc) := rd_isscalar s2 in
+  (s3, F_pick sc (F_mask m (a_params s3) b e)).
 
 Definition aread (cl : acls) (s : ast) (a : aattr) : ast * V :=
   match a with
@@ -418,7 +419,7 @@ Definition afresh (p : params) (a : aattr) : V :=
   | ABbox => F_pick (F_isscalar (F_shape pos)) bb
   | AEdges => F_edges (F_pos2d pos) bb
   | AArea => F_area p
-  | AMask m => F_mask m p bb (F_edges (F_pos2d pos) bb)
+  | AMask m => F_pick (F_isscalar (F_shape pos)) (F_mask m p bb (F_edges (F_pos2d pos) bb))
   end.
 Fixpoint aspec (p : params) (h : list aop) : list (outcome V) :=
   match h with
@@ -526,6 +527,55 @@ Fixpoint grun (xg yg : list Z) (c : gcache) (h : list (Z * Z)) : list (list V * 
   | xy :: h' => let '(c1, vs) := geval xg yg c xy in (vs, c1) :: grun xg yg c1 h'
   end.
 End Grid.
+
+(* StarFinder._get_raw_catalog (detection/starfinder.py:95-116): the kernel attribute is
+   normalised IN PLACE on every call (kernel /= max(kernel)); DAOStarFinder and
+   IRAFStarFinder only read their configuration ([norm] = identity). *)
+Section Finder.
+Variables K I R : Type.
+Variable norm : K -> K.            (* kernel / max(kernel) *)
+Variable find : K -> I -> R.       (* convolution, peak finding, catalog filters *)
+Definition sfcall (k : K) (img : I) : K * R := let k' := norm k in (k', find k' img).
+Fixpoint sfrun (k : K) (h : list I) : list (R * K) :=
+  match h with
+  | [] => []
+  | i :: h' => let '(k1, r) := sfcall k i in (r, k1) :: sfrun k1 h'
+  end.
+End Finder.
+
+(* IterativePSFPhotometry.__call__ (psf/photometry.py:1937-2023): resets fit_results, calls
+   the wrapped PSFPhotometry on the caller's arguments, then up to maxiters-1 more times on
+   init_params tables built from the previous results (never with a group_id column);
+   [next] abstracts make_residual_image + finder + _create_init_params: from the inner
+   results so far it decides the next inner call (None: stop). *)
+Section Iter.
+Variables G R : Type.
+Variable fit : option G -> pargs -> option R.
+Variable next : list (outcome (option R)) -> option pargs.
+Fixpoint itloop (legacy : bool) (c : pscfg) (fuel : nat) (s : psst G R) (acc : list (outcome (option R)))
+  : psst G R * list (outcome (option R)) :=
+  match fuel with
+  | O => (s, acc)
+  | S f => match next acc with
+           | None => (s, acc)
+           | Some a => let '(s1, o) := pscall G R fit legacy c s a in itloop legacy c f s1 (acc ++ [o])
+           end
+  end.
+(* one outer call: the list of inner outcomes determines the returned table and fit_results *)
+Definition itcall (legacy : bool) (c : pscfg) (maxiters : nat) (s : psst G R) (a : pargs)
+  : psst G R * list (outcome (option R)) :=
+  let '(s1, o) := pscall G R fit legacy c s a in
+  match o with
+  | Val (Some _) => itloop legacy c (Nat.pred maxiters) s1 [o]
+  | _ => (s1, [o])
+  end.
+Fixpoint itrun (legacy : bool) (c : pscfg) (maxiters : nat) (s : psst G R) (h : list pargs)
+  : list (list (outcome (option R)) * psst G R) :=
+  match h with
+  | [] => []
+  | a :: h' => let '(s1, o) := itcall legacy c maxiters s a in (o, s1) :: itrun legacy c maxiters s1 h'
+  end.
+End Iter.
 
 (* ------------------------------------------------------------------------- *)
 (* correspondence                                                             *)
@@ -662,7 +712,8 @@ Fixpoint acheck (cl : acls) (s : ast term) (h : list aobsv) : bool :=
 
 (* --- (d) PSFPhotometry: grouper = Some 1 / None; results are terms --- *)
 Definition tfit (g : option Z) (a : pargs) : option term :=
-  if (pa_data a <? 0)%Z then None      (* data ids < 0: images on which nothing is found / fitted *)
+  if (pa_data a <? 0)%Z && negb (is_some (pa_init a))
+  then None      (* data ids < 0: images on which the finder finds nothing *)
   else Some (Ap2 30 (match g with Some x => Atom x | None => Atom 0 end)
                     (Ap2 31 (Atom (pa_data a)) (Ap2 32 (Atom (pa_tab a))
                        (match pa_init a with None => Atom 0 | Some false => Atom 1 | Some true => Atom 2 end)))).
